@@ -82,3 +82,57 @@ void h_L_Group_write(void)
   Group__write(self, f, id, dsp);
   VF_CANARY();
 }
+
+/* ---------------------------------------------------------------- Parameter::write, one-dimensional character parameter
+ * (the state the *reader* produces for a 1-D string: declared width kept in _dimension[0], text trimmed) */
+#undef NAMELEN
+#undef DESCLEN
+#define PNAME (self->_name.size)
+#define PDESC (self->_description.size)
+#define D0 (self->_dimension.data[0])
+#define TXT (self->_param_data_string.data[0])
+void contract_Parameter__write(const struct Parameter *self, vf_stream *f, int groupIdx, vf_spos *dataStartPosition)
+__CPROVER_requires(vf_exc == 0 && __CPROVER_r_ok(self, sizeof(*self)) && VF_STR_OK(self->_name) && VF_STR_OK(self->_description) &&
+                   PNAME >= 1 && PNAME <= 127 && PDESC <= 255 && groupIdx >= 1 && groupIdx <= 127 && self->_data_type == -1 &&
+                   self->_dimension.size == 1 && __CPROVER_r_ok(self->_dimension.data, sizeof(size_t)) && D0 >= 2 && D0 <= 255 &&
+                   self->_param_data_string.size == 1 && __CPROVER_r_ok(self->_param_data_string.data, sizeof(vf_string)) &&
+                   VF_STR_OK(TXT) && TXT.size <= D0 &&
+                   VF_OSTREAM_WOK(f) && !vf_fault_enabled && f->cap == 4096 && (size_t)f->pos + 8 + 127 + 255 + 255 <= f->cap &&
+                   f->len == (size_t)f->pos && __CPROVER_rw_ok(dataStartPosition, sizeof(*dataStartPosition)))
+__CPROVER_assigns(f->pos, f->len, f->eof, f->fail, __CPROVER_object_whole(f->buf))
+/*@ C04 C03 : Parameter_write_char1d.cell-has-the-declared-width */
+__CPROVER_ensures(!f->fail && (size_t)f->pos == S0 + 2 + PNAME + 2 + 1 + 1 + 1 + D0 + 1 + PDESC && f->len == (size_t)f->pos)
+/*@ C03 C17 : Parameter_write_char1d.name-length-byte-with-lock-sign */
+__CPROVER_ensures(BYTE_AT(S0, self->_isLocked ? -(int)PNAME : (int)PNAME))
+/*@ C03 : Parameter_write_char1d.group-id-byte */ __CPROVER_ensures(BYTE_AT(S0 + 1, groupIdx))
+/*@ C03 C12 : Parameter_write_char1d.type-byte-is-minus-one */ __CPROVER_ensures(BYTE_AT(S0 + 4 + PNAME, 0xFF))
+/*@ C03 C04 : Parameter_write_char1d.one-dimension */ __CPROVER_ensures(BYTE_AT(S0 + 5 + PNAME, 1))
+/*@ C03 C04 C17 : Parameter_write_char1d.declared-width-byte */ __CPROVER_ensures(BYTE_AT(S0 + 6 + PNAME, D0))
+/*@ C03 C04 C14 : Parameter_write_char1d.text-bytes */
+__CPROVER_ensures((vf_gb >= S0 + 7 + PNAME && vf_gb < S0 + 7 + PNAME + TXT.size) ==> f->buf[vf_gb] == (unsigned char)TXT.data[vf_gb - S0 - 7 - PNAME])
+/*@ C04 C14 : Parameter_write_char1d.text-padded-with-spaces */
+__CPROVER_ensures((vf_gb >= S0 + 7 + PNAME + TXT.size && vf_gb < S0 + 7 + PNAME + D0) ==> f->buf[vf_gb] == ' ')
+/*@ C10 C14 : Parameter_write_char1d.nothrow */ __CPROVER_ensures(vf_exc == 0);
+
+void h_Parameter_write_char1d(void)
+{
+  struct Parameter *self = (struct Parameter *)vf_alloc(sizeof(*self));
+  vf_mk_string(&self->_name);
+  vf_mk_string(&self->_description);
+  self->_data_type = -1;
+  self->_dimension.size = 1;
+  self->_dimension.data = (size_t *)vf_alloc(sizeof(size_t));
+  self->_param_data_string.size = 1;
+  self->_param_data_string.data = (vf_string *)vf_alloc(sizeof(vf_string));
+  vf_mk_string(&self->_param_data_string.data[0]);
+  vf_stream *f = vf_mk_ostream(4096);
+  long p0;
+  __CPROVER_assume(p0 >= 0 && p0 + 8 + 127 + 255 + 255 <= 4096);
+  f->pos = p0;
+  f->len = (size_t)p0;
+  vf_fault_enabled = 0;
+  vf_spos *dsp = (vf_spos *)vf_alloc(sizeof(vf_spos));
+  int id;
+  Parameter__write(self, f, id, dsp);
+  VF_CANARY();
+}
